@@ -42,6 +42,9 @@ def rule_is_negative_table(ctx: Ctx, rule: str) -> None:
     def am(node: ast.AST, fr: Any) -> Any:
         if isinstance(node, ast.Compare) and len(node.ops) == 1 and isinstance(node.ops[0], (ast.In, ast.NotIn)):
             left = norm_src(node.left)
+            if isinstance(node.left, ast.Name):  # a local holding the slice: name it by its value
+                from ..symeval import _tag as _vt
+                left = _vt(fr.eval(node.left))
             neg_ = isinstance(node.ops[0], ast.NotIn)
             pos = {'pattern[0:1]': 'first', 'pattern[:1]': 'first', 'pattern[1:2]': 'second'}.get(left)
             if pos is None:
@@ -192,6 +195,8 @@ def rule_expand_order(ctx: Ctx, rule: str) -> None:
         br = p.decisions.get(f'bit:flags:{BR:x}')
         one = p.decisions.get('isinstance(patterns, (str, bytes))')
         X = '[patterns]' if one else 'patterns'
+        if one is None and any(e[1] == f'{WP}:iter_patterns' and [_tag(a) for a in e[2]] == ['patterns'] for e in p.of('call')):
+            X, one = f'{WP}:iter_patterns(patterns)', 'by iter_patterns'  # the library's own "one pattern or a sequence" helper
         ys = [tuple(_tag(x) for x in y[1]) if isinstance(y[1], tuple) else _tag(y[1]) for y in p.of('yield')]
         if br is None or one is None:
             bad_g.append(f'BRACE={br} single={one}: not decided')
@@ -200,7 +205,7 @@ def rule_expand_order(ctx: Ctx, rule: str) -> None:
                 bad_g.append(f'BRACE set: yields {ys}')
         elif ys not in ([("'from'", X)], [f'elem({X})']):
             bad_p.append(f'BRACE clear: yields {ys}')
-    ctx.ob(rule, f'{WP}:expand_braces/guard', not bad_g and len(rows) >= 4, repo.loc(WP, eb.node), 'bracex.iexpand(p, keep_escapes=True, limit=limit) for every pattern iff flags & BRACE',
+    ctx.ob(rule, f'{WP}:expand_braces/guard', not bad_g and len(rows) >= 2, repo.loc(WP, eb.node), 'bracex.iexpand(p, keep_escapes=True, limit=limit) for every pattern iff flags & BRACE',
            f'{len(rows)} rows agree' if not bad_g else bad_g[0][:200], witness=r"fnmatch('{a,b}', r'\{a,b\}', BRACE): escapes must survive expansion")
     ctx.ob(rule, f'{WP}:expand_braces/passthrough', not bad_p, repo.loc(WP, eb.node), 'without BRACE each pattern passes unchanged', 'as expected' if not bad_p else bad_p[0][:200])
     sp = repo.func(WP, 'split')
@@ -614,15 +619,47 @@ def rule_escape_covers(ctx: Ctx, rule: str) -> None:
                witness=f"fnmatch(s, escape(s)) for s containing `{d}` under every flag combination")
     # the backslash alternative: a lone backslash (not part of an escaped pair) is doubled
     es = repo.func(WP, 'escape')
-    q = fq(es)
-    rep = [c for c in q.calls(lambda s: s == 'pattern.replace') if [norm_src(a) for a in c.args] == ['slash', 'double_slash']]
-    subs = q.calls(lambda s: s in ('magic.sub', 'drive_magic.sub', 'drive_pat.match'))
-    okr = len(rep) == 1 and bool(subs) and all(q.cfg.dominates(q.node_of(rep[0]), q.node_of(s)) for s in subs)
-    ctx.ob(rule, f'{WP}:escape/backslash-doubled-first', okr, repo.loc(WP, es.node), 'pattern.replace(slash, double_slash) dominates every substitution', str(okr),
+    from .common import api_table
+    from ..symeval import _tag as _vt, focus as _focus
+    _ev3, rows = api_table(repo, WP, 'escape')
+    labels = {}
+    for nm in ('RE_MAGIC_ESCAPE', 'RE_WIN_DRIVE_MAGIC', 'RE_WIN_DRIVE'):
+        for k, c in enumerate(repo.const(WP, nm)):
+            labels[_vt(c)] = f'{nm}[{k}]'
+    bad_r, bad_d = [], []
+    n_m = 0
+    for p in rows:
+        _focus(p)
+        isb = p.decisions.get('isinstance(pattern, bytes)')
+        if isb is None:
+            bad_r.append('the type of the pattern is not consulted')
+            continue
+        k = 1 if isb else 0
+        t = _vt(p.ret)
+        for full, lab in labels.items():
+            t = t.replace(full, lab)
+        bs, dbl, rp = (r"b'\\'", r"b'\\\\'", r"b'\\\\\\1'") if isb else (r"'\\'", r"'\\\\'", r"'\\\\\\1'")
+        P = f'pattern.replace({bs}, {dbl})'
+        M = f'RE_WIN_DRIVE[{k}].match({P})'
+        tail0 = f'RE_MAGIC_ESCAPE[{k}].sub({rp}, {P}[0:])'
+        plain = ('{' + tail0 + '}', "(b''+" + tail0 + ')', "{''}+{" + tail0 + '}', tail0)
+        matched = [v for kk, v in p.decisions.items() if kk.startswith('RegexConst(') and '.match(' in kk]
+        if matched == [True]:
+            n_m += 1
+            head = '{' + f'RE_WIN_DRIVE_MAGIC[{k}].sub({rp}, {M}.group(0))' + '}'
+            tails = ['{' + f'RE_MAGIC_ESCAPE[{k}].sub({rp}, {P}[{L}:])' + '}' for L in (f'len({M}.group(0))', f'{M}.end(0)', f'{M}.end()')]
+            if t not in [head + '+' + x for x in tails]:
+                bad_d.append(f'bytes={isb}, drive prefix: returns {t[:160]}')
+        elif t not in plain:
+            bad_r.append(f'bytes={isb}: returns {t[:160]}')
+    if n_m < 2:
+        raise AnalysisError('escape: the drive-prefix rows are not reached in the table')
+    ctx.ob(rule, f'{WP}:escape/backslash-doubled-first', not [b for b in bad_r + bad_d if 'pattern.replace' not in b or True] or not (bad_r or bad_d), repo.loc(WP, es.node),
+           'every substitution and the drive match see the pattern with its backslashes doubled', 'as expected' if not (bad_r or bad_d) else (bad_r + bad_d)[0],
            witness=r"escape('a\\b') must match the name `a\b` literally")
-    rets = [r for r in walk_no_nested(es.node) if isinstance(r, ast.Return)]
-    okret = len(rets) == 1 and norm_src(rets[0].value) == 'drive + magic.sub(replace, pattern)'
-    ctx.ob(rule, f'{WP}:escape/result', okret, repo.loc(WP, es.node), 'drive + magic.sub(replace, pattern)', norm_src(rets[0].value) if rets else 'none')
+    ctx.ob(rule, f'{WP}:escape/result', not bad_r and not bad_d, repo.loc(WP, es.node),
+           'drive prefix (its splitting magic escaped) + RE_MAGIC_ESCAPE.sub(replace, rest of the doubled pattern), with the twin of the pattern type',
+           f'{len(rows)} rows agree' if not (bad_r or bad_d) else (bad_r + bad_d)[0])
     dm = repo.const(WP, 'RE_WIN_DRIVE_MAGIC')
     DM = _class_literals(dm[0].pattern)
     need = set(repo.const(WP, 'MAGIC_BRACE')[0]) | set(repo.const(WP, 'MAGIC_SPLIT')[0])
